@@ -17,7 +17,7 @@ var detProps = map[string][]string{
 	"store-sim": {"C04", "C05", "C02"},
 	"stream-sim": {"C07"},
 	"merge-sim": {"C25"},
-	"query-sim": {"C11", "C30", "C31"},
+	"query-sim": {"C11", "C30", "C31", "C06", "C08"},
 	"capture-sim": {"C21", "C22", "C29"},
 	"dist-sim": {"C15", "C31"},
 }
@@ -26,7 +26,7 @@ var detProps = map[string][]string{
 // The scheduled engines get large samples: a seam that is missing only in a rare situation (two
 // requests timing out at the same simulated instant: 0.3% of the C15 runs) does not show in 40 runs.
 var detRuns = map[string][2]int{
-	"C04": {40, 120}, "C05": {40, 120}, "C25": {16, 120}, "C02": {16, 60}, "C07": {200, 2000},
+	"C04": {40, 120}, "C05": {40, 120}, "C25": {16, 120}, "C02": {16, 60}, "C07": {200, 2000}, "C06": {160, 1600}, "C08": {32, 320},
 	"C11": {200, 2000}, "C30": {200, 2000},
 	"C21": {400, 4000}, "C22": {400, 4000}, "C29": {400, 4000},
 	"C15": {2000, 20000},
